@@ -354,6 +354,8 @@ func runC03(e *Engine, r *Report) {
 	ruleTallyDistinct(e, r)
 	ruleReplaySetsState(e, r)
 	ruleNotifyApplied(e, r)
+	ruleResponseTypes(e, r, "RequestVoteResp")
+	ruleTanStateCache(e, r)
 }
 
 // canGrantTrueEdges: in the boolean phi that forms the predicate's result,
